@@ -6,9 +6,9 @@ HOOKS = {
     "add_only": True,
 }
 ENGINES = [
-    {"name": "coq-model", "path": "/verif/coq", "serves_properties": ["C01", "C12", "C13", "C14"],
+    {"name": "coq-model", "path": "/verif/coq", "serves_properties": ["C01", "C12", "C13", "C14", "C20"],
      "kind_free_text": "hand-written Gallina model (Model/), proofs (Proofs/), property theorems (Props/), Coq 8.16.1"},
-    {"name": "correspondence", "path": "/verif/harness", "serves_properties": ["C01", "C12", "C13", "C14"],
+    {"name": "correspondence", "path": "/verif/harness", "serves_properties": ["C01", "C12", "C13", "C14", "C20"],
      "kind_free_text": "Go harness driving /repo (built with -tags verif) + extracted OCaml model and oracle (ocaml/) on the same cases"},
 ]
 NOTES = ("Every check: rebuild Coq closure of Props/<id>.v, parse Print Assumptions, build harness against /repo's working tree, "
@@ -49,6 +49,18 @@ CHECKS = [
         "kept within years 1800-2200 (UnixNano range is C01's concern); sampling rate 0 modelled as a panic, excluded (n >= 1).",
         "Coq proof (induction over operation histories on an explicit object store) + differential correspondence",
         "DESIGN.md section 8 C14"),
+    chk("C20",
+        "Seven Coq theorems (Props/C20.v) over a Gallina model of t2.go (TranslateGenny, translateAtNextWindow with its inclusive prevIdx "
+        "cursor and chunk advance, translateMetrics' selection by key, GetGennyTime, the 300-sample streaming collector): for every actor list "
+        "with at least one chunk each and every start<end: exactly end-start samples stamped 1000*(start+i); one sub-document per actor in input "
+        "order; each actor's values are all zero or one of its own samples; the selected sample is the first at or after the cursor whose ceiling "
+        "second differs from the previously selected one; selected positions never move backwards; output chunks hold 300 samples except the last; "
+        "GetGennyTime = ceiling seconds of first and maximal last timestamps. Correspondence: actor streams built with the events collectors, "
+        "TranslateGenny output decoded with ReadStructuredMetrics/ReadChunks, GetGennyTime; extracted oracles on the decoded output.",
+        "Trusted: as C12. float64 Ceil replaced by integer ceiling (exact below 2^53; exercised to 2^43 ms). An actor with no chunk at all "
+        "dereferences nil in Go (modelled as None, excluded by hypothesis, observed once in a subprocess). log.Fatal on collector errors not driven.",
+        "Coq proof (induction over seconds with a cursor invariant) + differential correspondence",
+        "DESIGN.md section 8 C20"),
     chk("C13",
         "Seven Coq theorems (Props/C13.v) over the hdrhist model: value at rank k = representative of the exact k-th order statistic for "
         "every multiset and rank; monotone in rank; Min/Max/mean numerator exact up to the range width; merge of equal geometry = recording "
